@@ -181,7 +181,7 @@ func (f *FailoverOf[V]) Get(
 	// If already locked waiting for completion before checking backend again.
 	if alreadyLocked {
 		// Return immediately if update is in progress and stale value available.
-		if val, freshEnough := f.freshEnough(err); freshEnough {
+		if val, freshEnough, _ := f.freshEnough(err); freshEnough {
 			return val, nil
 		}
 
@@ -189,12 +189,13 @@ func (f *FailoverOf[V]) Get(
 	}
 
 	// Pushing expired value with short ttl to serve during update.
-	if v, freshEnough := f.freshEnough(err); freshEnough {
-		if err = f.refreshStale(ctx, key, v); err != nil {
+	stale, freshEnough, hasStale := f.freshEnough(err)
+	if freshEnough {
+		if err = f.refreshStale(ctx, key, stale); err != nil {
 			return val, err
 		}
 
-		val = v
+		val = stale
 	}
 
 	// Check if update failed recently.
@@ -219,8 +220,9 @@ func (f *FailoverOf[V]) Get(
 					"key", key)
 			}
 
-			if !f.config.FailHard && !errors.Is(err, ErrNotFound) {
-				return val, nil
+			// Expired value is served regardless of MaxStaleness.
+			if !f.config.FailHard && hasStale {
+				return stale, nil
 			}
 		}
 
@@ -260,16 +262,19 @@ type klOf[V any] struct {
 	lock chan struct{}
 }
 
-func (f *FailoverOf[V]) freshEnough(err error) (val V, _ bool) {
+// freshEnough returns expired value if there is one, and whether it can be served during update.
+func (f *FailoverOf[V]) freshEnough(err error) (val V, freshEnough bool, expired bool) {
 	var errExpired ErrWithExpiredItemOf[V]
 
 	if errors.As(err, &errExpired) {
 		if f.config.MaxStaleness == 0 || time.Since(errExpired.ExpiredAt()) < f.config.MaxStaleness {
-			return errExpired.Value(), true
+			return errExpired.Value(), true, true
 		}
+
+		return errExpired.Value(), false, true
 	}
 
-	return val, false
+	return val, false, false
 }
 
 func (f *FailoverOf[V]) waitForValue(ctx context.Context, key []byte, keyLock *klOf[V]) (V, error) {
